@@ -49,7 +49,12 @@ def second_query_after_failure(mc, version, first_mode, seed):
 
     def factory(idx, sess):
         sc = TracingScript(run, Profile(version), [])
-        if idx == 0:
+        if idx == 0 and first_mode == 'play_comp':
+            # a whole session with compression switched on, ended by the server's disconnect packet
+            sc.steps = [('expect', 2), ('send', sc.prof.login_compress(64)), ('compress', 64),
+                        ('send', sc.prof.login_success(bytes(range(16)), 'verif')), ('call', lambda s: setattr(s, 'state', 'play')),
+                        ('send', sc.prof.keep_alive(5)), ('send', sc.prof.play_disconnect('{"text":"bye"}'))]
+        elif idx == 0:
             sc.steps = [('expect', 2), ('close',)]          # the first attempt meets a server that hangs up
         else:
             sc.steps = [('expect', 2), ('send', sc.prof.status_response(P.status_json(protocol=version, name='again'))),
@@ -74,7 +79,7 @@ def second_query_after_failure(mc, version, first_mode, seed):
     run.go(scenario)
     if run.outcome != 'done':
         return 'execution ended as %s' % run.outcome
-    if marks.get('errors', 0) < 1:
+    if marks.get('errors', 0) < 1 and first_mode != 'play_comp':
         return 'the first attempt reported no error'
     if len(run.errors) != marks['errors']:
         return 'the second query reported an error: %r' % (run.errors[-1],)
@@ -336,13 +341,13 @@ def run(chk):
     #      delivered once, connection closed, exit callback run once)
     for j in range(8 if chk.tier == 'quick' else 60):
         v = [47, 340, 757, 404][j % 4]
-        first_mode = ('status', 'connect')[j % 2]
+        first_mode = ('status', 'connect', 'play_comp')[j % 3]
         what = second_query_after_failure(mc, v, first_mode, chk.seed * 211 + j)
         chk.traces += 1
         chk.case(('requery', j))
         if what:
-            chk.violation('status:after-failed-attempt', 'a %s() that failed, then status() on the same Connection (protocol %d): %s'
-                          % (first_mode, v, what), {'version': v, 'first': first_mode})
+            chk.violation('status:after-failed-attempt', '%s, then status() on the same Connection (protocol %d): %s'
+                          % ('a whole session with compression' if first_mode == 'play_comp' else 'a %s() that failed' % first_mode, v, what), {'version': v, 'first': first_mode})
 
     # ---- the same scenarios after the table of supported versions has been changed at run time, the documented way
     #      (edit SUPPORTED_MINECRAFT_VERSIONS, call initglobals()): one known version becomes supported, one is withdrawn
